@@ -136,9 +136,11 @@ class NameSanitizer:
         # Split on non-alphanumeric and camel case boundaries
         words = re.findall(r"[A-Z]+(?=[A-Z][a-z])|[A-Z]?[a-z]+|[A-Z]+|[0-9]+", name)
         if not words:
-            # fallback: split on non-alphanumerics
-            words = re.split(r"\W+", name)
+            # fallback: split on non-alphanumerics (ASCII only, like sanitize_class_name)
+            words = re.split(r"[^a-zA-Z0-9]+", name)
         module = "_".join(word.lower() for word in words if word)
+        if not module:  # e.g. "", "$" or a name without any ASCII letter or digit
+            module = "unnamed_module"
         # If it starts with a digit, prefix with underscore
         if module and module[0].isdigit():
             module = "_" + module
